@@ -85,6 +85,8 @@ Record case := {
   k_stored : option plan;            (* read back from the store with the returned id *)
   k_flags : list bool;               (* [returned id = stored id; ids never seen before in this store;
                                          submit time within the call's window] *)
+  k_startplan : option plan;         (* the plan as read from the store just before Start, when it is not
+                                        k_stored (tampered with through the vault's Update / Create) *)
   k_start : nat;
   k_fresh : bool                     (* the plan was not stale when Start was called *)
 }.
@@ -116,6 +118,17 @@ Definition all_zero (l : list nat) : bool := forallb (Nat.eqb 0) l.
 Definition non_check_in_group (p : plan) : bool :=
   existsb (fun a => match a_plugreg a with Some (true, _) => false | _ => true end) (check_actions p).
 
+(* Start is judged on the plan it reads from the store *)
+Definition start_verdict (c : case) : nat :=
+  match (match k_startplan c with Some x => Some x | None => k_stored c end) with
+  | None => if Nat.eqb (k_start c) 3 then 0 else 14
+  | Some sp =>
+    if Nat.eqb (k_start c) 3 then 0 else
+    if Nat.eqb (k_start c) 2 then 16 else
+    if Nat.eqb (k_start c) 1 && non_check_in_group sp then 15 else
+    if negb (Nat.eqb (k_start c) (b2n (validate_start (k_fresh c) (Some sp)))) then 14 else 0
+  end.
+
 (* first failing obligation; 0 = none.  Codes are listed in lib/props/c16.py.  The comparison with the
    specification (WF) comes before the comparison with the transcription: WF determines the verdict
    completely, so a disagreement with it is a violation with this very plan as the failing input. *)
@@ -130,7 +143,7 @@ Definition verdict (c : case) : nat :=
   if negb (Nat.eqb (k_validate c) 3) && negb (Nat.eqb (k_validate c) (b2n spec_v)) then 3 else
   if negb (Nat.eqb (k_validate c) 3) && negb (Nat.eqb (k_validate c) (b2n (validate vp))) then 2 else
   if Nat.eqb (k_submit c) 2 then 4 else
-  if Nat.eqb (k_submit c) 3 then 0 else
+  if Nat.eqb (k_submit c) 3 then start_verdict c else
   if negb (Nat.eqb (k_submit c) (b2n spec_s)) then 6 else
   if negb (Nat.eqb (k_submit c) (b2n (is_some r))) then 5 else
   if Nat.eqb (k_submit c) 0 then
@@ -144,10 +157,7 @@ Definition verdict (c : case) : nat :=
       if negb (ids_goodb (ids_plan sp) && nthb (k_flags c) 0 && nthb (k_flags c) 1) then 11 else
       if Z.eqb (p_submit sp) 0 || negb (nthb (k_flags c) 2) then 12 else
       if negb (plan_eqb (defn sp) (defn mp)) then 13 else
-      if Nat.eqb (k_start c) 3 then 0 else
-      if Nat.eqb (k_start c) 2 then 16 else
-      if Nat.eqb (k_start c) 1 && non_check_in_group sp then 15 else
-      if negb (Nat.eqb (k_start c) (b2n (validate_start (k_fresh c) (Some sp)))) then 14 else 0
+      start_verdict c
     | _, _, _ => 8
     end.
 
